@@ -72,7 +72,7 @@ func known(p gobatch.Program, got, want gobatch.Result) string {
 func config() gobatch.Config {
 	registerRec()
 	return gobatch.Config{
-		Rec: vrec, Name: "c14", N: vrec.Scale(70, 450),
+		Rec: vrec, Name: "c14", N: vrec.Scale(70, 150),
 		Gen: Generate, Known: known, Interp: runHistory, OracleOf: oracleOf,
 	}
 }
